@@ -41,7 +41,8 @@ def monitorTag (prop : String) (script : List Cmd) (obs : List Obs) : Option Str
     | "C14" => MonShutdown.monitorBurst script iters 1
     | "C15" => C15.monitorCrash script obs
     | "C18" => MonLink.monitor script iters 0
-    | "C08" => (MonDuel.monitor script iters) <|> (MonDuel.monitorConflict script iters 0)
+    | "C08" => (MonDuel.monitor script iters) <|> (MonDuel.monitorConflict script iters 0) <|>
+               (MonDuel.monitorNoRename script iters 0)
     | "C07" => (MonResponder.monitorProbed script iters 0) <|> (MonResponder.monitorAnnounced script iters 0)
     | "C09" => MonResponder.monitorUnregister script iters 0
     | "C06" => (MonResponder.monitorAnswers script iters 0) <|> (MonResponder.monitorProbed script iters 0 true) <|>
